@@ -12,8 +12,10 @@ import "fmt"
 func VerifH_C02_go_api() {
 	vm := New()
 	maxStr := verifParam("maxstr", 1)
-	tk := verifChoose(18)
+	tk := verifChoose(19)
 	switch {
+	case tk == 18: // a shared, acyclic substructure
+		vm.Run("var shared = {x: 1}; T = {from: shared, to: shared, rows: [shared, shared], m: function () { return shared }}")
 	case tk == 16:
 		vm.Run("T = [[[1]], [['a']], [[]], [1, 'a'], [{}], [[null]]]")
 	case tk == 17:
@@ -47,7 +49,9 @@ func VerifH_C02_go_api() {
 		case 4:
 			t.ToBoolean()
 		case 5:
-			t.Export()
+			_, xerr := t.Export()
+			// only a cycle (14) or a throwing accessor (13) can make Export fail
+			verifAssert(xerr == nil || tk == 13 || tk == 14, "Export of an acyclic value succeeds (shared substructures are not cycles)")
 		case 6:
 			t.Call(a, a, 1, "s", nil)
 		case 7:
